@@ -53,15 +53,21 @@ impl<T: RefCnt> HybridProtection<T> {
         // SeqCst to make sure the storage vs. the debt are well ordered.
         let confirm = storage.load(SeqCst);
         if ptr == confirm {
+            #[cfg(arc_swap_verif)]
+            verif_rt::probe(verif_rt::probes::FAST_CONFIRMED, false);
             // Successfully got a debt
             Some(unsafe { Self::new(ptr, Some(debt)) })
         } else if debt.pay::<T>(ptr) {
+            #[cfg(arc_swap_verif)]
+            verif_rt::probe(verif_rt::probes::FAST_CHANGED_RETURNED, false);
             // It changed in the meantime, we return the debt (that is on the outdated pointer,
             // possibly destroyed) and fail.
             None
         } else {
             // It changed in the meantime, but the debt for the previous pointer was already paid
             // for by someone else, so we are fine using it.
+            #[cfg(arc_swap_verif)]
+            verif_rt::probe(verif_rt::probes::FAST_CHANGED_PAID, false);
             Some(unsafe { Self::new(ptr, None) })
         }
     }
@@ -80,13 +86,19 @@ impl<T: RefCnt> HybridProtection<T> {
         // not, we get a replacement value, already protected and a debt to take care of.
         match node.confirm_helping(gen, candidate as usize) {
             Ok(debt) => {
+                #[cfg(arc_swap_verif)]
+                verif_rt::probe(verif_rt::probes::FB_CONFIRMED, false);
                 // The fast path -> we got the debt confirmed alright.
                 Self::from_inner(unsafe { Self::new(candidate, Some(debt)).into_inner() })
             }
             Err((unused_debt, replacement)) => {
+                #[cfg(arc_swap_verif)]
+                verif_rt::probe(verif_rt::probes::FB_HELPED, false);
                 // The debt is on the candidate we provided and it is unused, we so we just pay it
                 // back right away.
                 if !unused_debt.pay::<T>(candidate) {
+                    #[cfg(arc_swap_verif)]
+                    verif_rt::probe(verif_rt::probes::FB_HELPED_AND_PAID, false);
                     unsafe { T::dec(candidate) };
                 }
                 // We got a (possibly) different pointer out. But that one is already protected and
@@ -114,11 +126,17 @@ impl<T: RefCnt> Drop for HybridProtection<T> {
             Some(debt) => {
                 let ptr = T::as_ptr(&self.ptr);
                 if debt.pay::<T>(ptr) {
+                    #[cfg(arc_swap_verif)]
+                    verif_rt::probe(verif_rt::probes::GUARD_DEBT_RETURNED, false);
                     return;
                 }
                 // But if the debt was already paid for us, we need to release the pointer, as we
                 // were effectively already in the Unprotected mode.
             }
+        }
+        #[cfg(arc_swap_verif)]
+        if self.debt.is_none() {
+            verif_rt::probe(verif_rt::probes::GUARD_DEBT_WAS_PAID, false);
         }
         // Equivalent to T::dec(ptr)
         unsafe { ManuallyDrop::drop(&mut self.ptr) };
@@ -143,6 +161,8 @@ impl<T: RefCnt> Protected<T> for HybridProtection<T> {
             Some(debt) => {
                 let ptr = T::inc(&self.ptr);
                 if !debt.pay::<T>(ptr) {
+                    #[cfg(arc_swap_verif)]
+                    verif_rt::probe(verif_rt::probes::INTO_INNER_PAID_RACE, false);
                     unsafe { T::dec(ptr) };
                 }
             }
@@ -215,6 +235,8 @@ impl<T: RefCnt, Cfg: Config> CaS<T> for HybridStrategy<Cfg> {
     ) -> Self::Protected {
         loop {
             let old = <Self as InnerStrategy<T>>::load(self, storage);
+            #[cfg(arc_swap_verif)]
+            verif_rt::probe(verif_rt::probes::CAS_RETRY, false);
             // Observation of their inequality is enough to make a verdict
             if old.as_ptr() != current.as_raw() {
                 return old;
